@@ -84,8 +84,44 @@ KINDS = ['type', 'min', 'max', 'min_length', 'max_length', 'sign',
          'max_nulls', 'no_duplicates', 'allowed_values', 'rex']
 SIGNS = ['positive', 'non-negative', 'zero', 'non-positive', 'negative',
          'null']
-TYPE_VALUES = ['bool', 'int', 'real', 'string', 'date', ['int', 'real'],
-               ['bool', 'string'], None]
+TYPES = ['bool', 'int', 'real', 'string', 'date']
+TYPE_VALUES_BASIC = ['bool', 'int', 'real', 'string', 'date', ['int', 'real'],
+                     ['bool', 'string'], None]
+# every single type as a scalar and as a one-element list, every pair as a
+# list in both orders, the triple int/real/bool (two orders), null
+TYPE_VALUES = (TYPE_VALUES_BASIC
+               + [[t] for t in TYPES]
+               + [[a, b] for a in TYPES for b in TYPES
+                  if a != b and [a, b] not in TYPE_VALUES_BASIC]
+               + [['int', 'real', 'bool'], ['bool', 'real', 'int']])
+
+# ---- regular-expression feature alphabet: (expression, witness value it
+# alone matches among the witnesses, feature)
+REX_ALPHABET = [
+    ('^([a-z]+)-(\\d+)$', 'ab-12', 'capture groups, classes, quantifiers'),
+    ('^(\\d)\\1$', '77', 'numbered back-reference'),
+    ('^(?P<c>[a-z])(?P=c)$', 'qq', 'named group and back-reference'),
+    ('(?i)^AB$', 'Ab', 'inline flag (?i) at the start'),
+    ('^(?:cow|dog)$', 'cow', 'alternation inside a group'),
+    ('^cat|hen$', 'cat', 'top-level alternation'),
+    ('^x.y$', 'x\ny', 'dot against a newline'),
+    ('(?s)^p.q$', 'p\nq', 'inline flag (?s)'),
+    ('^z$', 'z\n', 'dollar before a final newline'),
+    ('^\\w\\d!$', 'é٣!', 'unicode word / digit classes'),
+    ('(?x) ^ k \\s k $', 'k k', 'inline flag (?x)'),
+    ('B-1', 'B-1', 'no anchors'),
+    ('^[^a-z0-9]{2,3}\\?$', '##?', 'negated class, counted quantifier'),
+]
+REX_NOMATCH = 'ZZZ9'
+
+
+def rex_subsets(maxn):
+    """All index subsets of the expression alphabet of size 1..maxn."""
+    n = len(REX_ALPHABET)
+    for k in range(1, maxn + 1):
+        for sub in itertools.combinations(range(n), k):
+            yield list(sub)
+
 PRECISIONS = [None, 'open', 'closed', 'fuzzy']
 EPSILONS = [0, 0.01, 0.25, 0.5]
 SUFFIX = {'type': 'type', 'min': 'min', 'min_length': 'min_length',
